@@ -179,6 +179,8 @@ EXTRA = {
         "the form registry regenerated from the source decide dupPairs / dupLabels.",
  "C12": " C12_code_eam_builder(_order_free/_strict): EAM_Potential_Builder._init_eampotentials and the eleven methods it uses, regenerated from the source with the iteration order of its one "
         "set loop handed in as a parameter, build the model's eamBuild for EVERY permutation the hash seed can produce.",
+ "C09": " C09_code_modifier_reduce/_sum_product_pow/_sum_value/_product_value: the reducing modifiers of _modifiers.py, regenerated from the source, fold plus/product/pow from the "
+        "left over the callables of all their arguments; C09_code_register_with_each_other/_every_form_sees_every_other: the registry registers every form with every other, both ways.",
  "C07": " C07_pow_d1_zero_base/_d2_zero_base: the guards of pow.deriv / pow.deriv2 (vanishing base, constant whole exponent), regenerated from the source, return the derivatives.",
 }
 
